@@ -27,6 +27,28 @@ pub struct Prepared {
     pub route_class: String,
     pub seg_class: String,
     pub cid_class: String,
+    /// further request headers (name, value) that a client, a proxy or a browser may add
+    pub extra: Vec<(String, String)>,
+}
+
+/// request headers a client, proxy or browser may add; none of them is part of the protocol
+pub fn extra_headers(key: &str) -> Vec<(String, String)> {
+    let h = |n: &str, v: &str| (n.to_string(), v.to_string());
+    match key {
+        "ae-none" => vec![h("Accept-Encoding", "identity;q=0")],
+        "ae-star0" => vec![h("Accept-Encoding", "*;q=0")],
+        "ae-compress" => vec![h("Accept-Encoding", "compress, identity;q=0")],
+        "ae-gzip" => vec![h("Accept-Encoding", "gzip, deflate, br")],
+        "accept-json" => vec![h("Accept", "application/json")],
+        "accept-none" => vec![h("Accept", "image/png;q=1.0, */*;q=0")],
+        "range" => vec![h("Range", "bytes=0-0")],
+        "inm" => vec![h("If-None-Match", "*"), h("If-Modified-Since", "Thu, 01 Jan 2037 00:00:00 GMT")],
+        "cache" => vec![h("Cache-Control", "max-age=3600"), h("Pragma", "cache")],
+        "origin" => vec![h("Origin", "https://example.org"), h("Access-Control-Request-Method", "POST")],
+        "fwd" => vec![h("X-Forwarded-For", "10.0.0.1"), h("Forwarded", "for=10.0.0.1;proto=https"), h("Via", "1.1 proxy")],
+        "te" => vec![h("TE", "trailers"), h("Accept-Charset", "utf-16;q=1, *;q=0"), h("Accept-Language", "tlh")],
+        other => panic!("bad extra header key {other}"),
+    }
 }
 
 type Hdr = Option<Vec<u8>>;
@@ -41,6 +63,7 @@ pub fn run_request(web: WebServer, prep: &Prepared) -> std::thread::Result<RawRe
     let ct_val = prep.ct_val.clone();
     let chunks = prep.chunks.clone();
     let (broken, http10) = (prep.broken, prep.http10);
+    let extra = prep.extra.clone();
     std::panic::catch_unwind(std::panic::AssertUnwindSafe(|| {
         actix_rt::System::new().block_on(async move {
             let app = test::init_service(App::new().configure(|c| web.config(c))).await;
@@ -56,6 +79,9 @@ pub fn run_request(web: WebServer, prep: &Prepared) -> std::thread::Result<RawRe
             }
             if let Some(ct) = ct_val {
                 rq = rq.insert_header(("Content-Type", ct));
+            }
+            for (n, v) in &extra {
+                rq = rq.insert_header((n.as_str(), v.as_str()));
             }
             let req = if chunks.len() <= 1 && !broken {
                 // what a real client sends with a body of known length
@@ -368,6 +394,7 @@ impl HCtx {
             route_class: route_class.to_string(),
             seg_class,
             cid_class,
+            extra: toks.get(6).and_then(|t| t.strip_prefix("xh=")).map(extra_headers).unwrap_or_default(),
         }
     }
 
